@@ -666,11 +666,15 @@ func main() {
 		}
 	}
 	r := gen.NewRand(f.Seed)
-	n := f.N(120, 6000)
+	n := f.N(120, 1500)
+	budget := 45 * time.Second // quick tier: stay within ~60 s whatever the machine load
+	if f.Tier == "thorough" {
+		budget = 12 * time.Minute
+	}
 	start := time.Now()
 	for i := 0; i < n; i++ {
 		runCase(w, genCase(r.Fork()), "")
-		if f.Tier == "quick" && time.Since(start) > 45*time.Second {
+		if time.Since(start) > budget {
 			w.Count("stopped-early-at", i)
 			break
 		}
